@@ -377,7 +377,13 @@ void run_idle_sweep(Judge& j, uint64_t nbase, int max_idle, const std::vector<in
         vu::Rng rng(ctx.seed * 31337 + bi * 104729);
         Scenario base = gen_mix(rng, k, "idle-base");
         base.seed = ctx.seed; base.index = bi;
-        if (rng.chance(1, 4)) base.net.shutdown_hangs = true;
+        if (rng.chance(1, 3)) base.net.shutdown_hangs = true;
+        // slow paths: the terminal action then meets a connect in progress, a handshake in flight or a write being drained
+        if (rng.chance(1, 3)) base.default_attempt.tcp_delay = (vt)rng.pick(std::vector<vt>{300 * MS, 1500 * MS});
+        if (rng.chance(1, 3)) { base.net.latency_min = 50 * MS; base.net.latency_max = (vt)rng.pick(std::vector<vt>{200 * MS, 900 * MS}); }
+        if (rng.chance(1, 3)) base.net.write_done_delay_max = (vt)rng.pick(std::vector<vt>{5 * MS, 1500 * MS});
+        // the client's own receive limit says nothing about what it may send
+        if (rng.chance(1, 3)) base.ccfg.connect_props[boost::mqtt5::prop::maximum_packet_size] = (uint32_t)rng.pick(std::vector<int>{40, 60, 100});
         if (rng.chance(1, 5)) { base.attempts.clear(); AttemptPlan a; a.tcp = AttemptPlan::tcp_hang; base.attempts.push_back(a); base.default_attempt = a; }
         // number of idle points / handler boundaries of the undisturbed run
         uint64_t nidle, nhand; std::vector<vt> tinst;
@@ -424,7 +430,7 @@ void run_idle_sweep(Judge& j, uint64_t nbase, int max_idle, const std::vector<in
                             }
                             break;
                         }
-                        case 5: a.kind = Action::disconnect; a.rc = 4; { ref::Prop u; u.id = 0x1F; u.s1 = "bye"; a.props.push_back(u); } break;
+                        case 5: a.kind = Action::disconnect; a.rc = 4; { ref::Prop u; u.id = 0x1F; u.s1 = rng.chance(1, 2) ? "bye" : "bye, and thanks for all the fish: a reason string that is longer than a small packet limit"; a.props.push_back(u); if (rng.chance(1, 2)) { ref::Prop q; q.id = 0x26; q.s1 = "why"; q.s2 = "because"; a.props.push_back(q); } } break;
                         case 6: {   // a request and the terminal action in the same turn: the request's write completion is already queued
                             a.kind = Action::publish; a.qos = (int)rng.range(1, 2); a.topic = "turn"; a.payload = "x";
                             Action c; c.kind = rng.chance(1, 3) ? Action::disconnect : Action::cancel; c.chained = true; extra.push_back(c);
